@@ -34,8 +34,17 @@ THEOREMS = [
     "Docstring.every_tag_rendered_or_reported_counterexample", "Docstring.handlers_modelled",
     "Epytext.listartLoop_some", "Epytext.wrapped_item_para_indent",
     "Docstring.pair_both_orders_kept", "Docstring.runPair_last_desc", "Docstring.runPair_last_type",
+    "Rst.stripSeparator_keeps_description", "Rst.stripSeparator_no_separator",
+    "Property.fields_kept_with_body", "Property.return_kept_when_body",
+    "Params.described_parameter_row", "Params.typed_parameter_row", "Params.type_of_self_counterexample",
+    "Params.lookup_dictSet", "Params.paramsDict_lookup",
+    "Attrs.var_text_held", "Attrs.type_text_held", "Attrs.shownType_own",
 ]
 PARTIAL = {
+    "Params.typed_parameter_row":
+        "hypothesis: the name is not the leading `self` / `cls` of a method (`Sig.selfName`): `resolve_types` drops that row when it "
+        "has no description even if its type comes from the docstring — `Params.type_of_self_counterexample`, replayed on the real "
+        "code: open finding field:type-of-self-or-cls-silently-dropped.",
     "Docstring.every_tag_rendered_or_reported_partial":
         "hypothesis `inScope`: a `type` field with a name in a module/class docstring names a variable that is assigned or "
         "documented by ivar/cvar/var — otherwise the type goes to an Attribute without kind that is never displayed (open "
@@ -60,6 +69,10 @@ RULE = ("documents from a structure-aware generator (paragraphs of words with pu
         "nested in another construct, or a block, or >= 2 fields. Kernel streams compare model and code on random and "
         "structured inputs (see distribution).")
 ASSUMPTIONS = [
+    "names and texts of fields are abstract numbers in Params / Attrs / Property / Fields.runPair; the correspondence maps them to real "
+    "parameter names and TEXT<n> markers",
+    "napoleon's google/numpy conversion, the reST field visitor besides the consolidated-entry separator, the epytext structuring pass "
+    "and docutils/twisted are not modelled: the direct oracle (documents + deterministic corpus) speaks for them",
     "regex character classes `\\s` / `\\w` beyond ASCII are parameters of the model (`pyIsSpace` table checked against "
     "Python's for every code point < 0x3100; `\\w` supplied per request from Python's `re`)",
     "`DOCTEST_RE` / `DOCTEST_EXAMPLE_RE` match spans are parameters (non-overlapping, increasing — checked on every match "
@@ -1802,46 +1815,405 @@ def stream_itemliteral(ctx: Ctx) -> None:
     ctx.compare("_tokenize(item + literal)~Epytext.itemLiteral", reqs, impls, pay)
 
 
+# ====================================================================== reST consolidated bullet entry: the separator
+
+def impl_rstsep(text: str) -> str:
+    """the real `handle_consolidated_bullet_list` on one entry `` `a`<text> `` built as docutils nodes"""
+    from docutils import nodes
+    from pydoctor.epydoc.markup import restructuredtext as R
+    from pydoctor.epydoc.docutils import new_document
+    doc = new_document("c09")
+    tr = R._SplitFieldsTranslator(doc, [])
+    para = nodes.paragraph("", "", nodes.title_reference("", "a"), nodes.Text(text))
+    para.line = 1
+    tr.handle_consolidated_bullet_list(nodes.bullet_list("", nodes.list_item("", para)), "param")
+    f = tr.fields[0]
+    assert f.tag() == "param" and f.arg() == "a"
+    return enc(f.body()._document.astext())
+
+
+def stream_rstsep(ctx: Ctx) -> None:
+    import itertools
+    reqs, impls, pay = [], [], []
+    alpha = ":- \ta1\u00a0"
+    texts = ["".join(p) for n in range(0, 5) for p in itertools.product(alpha, repeat=n)]
+    texts += [": -1 disables the limit", " - --verbose makes", ": :-) smile", ":: x", " : :: y", "-1", ":-)", " -  - z", ":\n next"]
+    for t in texts:
+        reqs.append("epytext rstsep " + enc(t))
+        out = impl_rstsep(t)
+        impls.append(out)
+        pay.append({"rst-separator-text": t})
+        # direct oracle: after ONE separator and the blanks around it, nothing of the description is removed
+        shown = dec(out)
+        m = re.match(r"^( ?[:\-])?\s*", t) if (t[:1] in ":-" or t[:2] in (" -", " :")) else None
+        want = t[m.end():] if m else t
+        if shown != want:
+            ctx.fail("rst-consolidated:description-start-eaten", {"rst-separator-text": t, "shown": shown},
+                     "the description of a consolidated-field entry loses more than its separator")
+    ctx.compare("handle_consolidated_bullet_list~Rst.stripSeparator", reqs, impls, pay)
+    ctx.count("stream:rst-separator", len(reqs))
+
+
+# ====================================================================== FieldHandler: the Parameters table
+
+PNAMES = {1: "a", 2: "b", 3: "kw", 4: "args", 5: "timeout", 6: "zz", 7: "self", 8: "cls"}
+SIGS = [  # (source of the parameter list, [(id, annotation id)], kwargs id, self id, decorator, is method)
+    ("a, b", [(1, None), (2, None)], None, None, "", False),
+    ("a, b: ANN20 = 1", [(1, None), (2, 20)], None, None, "", False),
+    ("a, *args, **kw", [(1, None), (4, None), (3, None)], 3, None, "", False),
+    ("a: ANN21, **kw: ANN22", [(1, 21), (3, 22)], 3, None, "", False),
+    ("self, a, **kw", [(7, None), (1, None), (3, None)], 3, 7, "", True),
+    ("cls, a", [(8, None), (1, None)], None, 8, "@classmethod\n    ", True),
+    ("", [], None, None, "", False),
+    ("**kw", [(3, None)], 3, None, "", False),
+]
+
+
+def impl_params(sig, events: List[Tuple[str, int, int]]) -> str:
+    from pydoctor import model, epydoc2stan
+    from pydoctor.stanutils import flatten
+    plist, _, _, _, deco, method = sig
+    fields = "\n".join("%s@%s %s: TEXT%d" % ("    " * (2 if method else 1), {"P": "param", "K": "keyword", "T": "type"}[k], PNAMES[n], t)
+                       for k, n, t in events)
+    if method:
+        src = 'class C:\n    %sdef f(%s):\n        """\n        Doc.\n\n%s\n        """\n' % (deco, plist, fields)
+        full = "m.C.f"
+    else:
+        src = 'def f(%s):\n    """\n    Doc.\n\n%s\n    """\n' % (plist, fields)
+        full = "m.f"
+    buf = io.StringIO()
+    with contextlib.redirect_stdout(buf):
+        system = model.System()
+        system.options.docformat = "epytext"
+        b = system.systemBuilder(system)
+        b.addModuleString(src, modname="m")
+        b.buildModules()
+        h = flatten(epydoc2stan.format_docstring(system.allobjects[full]))
+    ids = {v: k for k, v in PNAMES.items()}
+    rows = []
+    for row in field_table(dom(h)).get("Parameters", []):
+        name = row[0] if len(row) > 1 else ""
+        nm, _, typ = name.partition(":")
+        num = lambda cell: (re.search(r"(?:TEXT|ANN)(\d+)", cell).group(1) if re.search(r"(?:TEXT|ANN)(\d+)", cell) else "-")
+        rows.append("%d/%s/%s" % (ids[nm.strip().lstrip("*")], num(row[-1]), num(typ)))
+    reps = []
+    for l in buf.getvalue().split("\n"):
+        m = re.search(r'Parameter "(\w+)" was already documented', l)
+        if m:
+            reps.append("dup:%d" % ids[m.group(1)])
+        m = re.search(r'Documented parameter "(\w+)" does not exist', l)
+        if m:
+            reps.append("notfound:%d" % ids[m.group(1)])
+        m = re.search(r'Parameter "(\w+)" is documented as keyword', l)
+        if m:
+            reps.append("askw:%d" % ids[m.group(1)])
+    return "rows %s | reports %s" % (" ".join(rows) or "-", " ".join(reps) or "-")
+
+
+def params_request(sig, events) -> str:
+    _, params, kw, slf, _, _ = sig
+    ps = ",".join(("%d:%d" % p) if p[1] is not None else str(p[0]) for p in params) or "-"
+    return ("epytext params %s %s %s %s" % (ps, kw if kw is not None else "-", slf if slf is not None else "-",
+                                           " ".join("%s%d.%d" % e for e in events))).rstrip()
+
+
+def params_oracle(ctx: Ctx, sig, events, out: str) -> None:
+    """every described / typed name has a row that shows its text, or the field is reported (by name)"""
+    rows = {}
+    for r in out.split(" | ")[0].split()[1:]:
+        if r != "-":
+            n, b, t = r.split("/")
+            rows[int(n)] = (b, t)
+    reports = out.split(" | reports ")[1]
+    for i, (k, n, t) in enumerate(events):
+        later_same = any(k2 in (("P", "K") if k in "PK" else ("T",)) and n2 == n for k2, n2, _ in events[i + 1:])
+        shown = n in rows and rows[n][0 if k in "PK" else 1] == str(t)
+        if not shown and not later_same and not re.search(r":%d\b" % n, reports):
+            ctx.fail("field:type-of-self-or-cls-silently-dropped" if (k == "T" and n == sig[3]) else
+                     "field:%s-text-missing-from-parameters-table" % {"P": "param", "K": "keyword", "T": "type"}[k],
+                     {"signature": sig[0], "fields": [list(e) for e in events], "names": PNAMES, "shown": out},
+                     "a %s field's text is neither in the row of '%s' nor reported" % ({"P": "param", "K": "keyword", "T": "type"}[k], PNAMES[n]))
+
+
+def stream_params(ctx: Ctx) -> None:
+    import itertools
+    reqs, impls, pay = [], [], []
+    cases = []
+    # exhaustive: every signature x every sequence of <= 2 fields over a small name set; random longer ones
+    for sig in SIGS:
+        names = sorted({p[0] for p in sig[1]} | {5, 6})
+        evs1 = [(k, n) for k in "PKT" for n in names]
+        for n_ev in range(0, 3):
+            for combo in itertools.product(evs1, repeat=n_ev):
+                cases.append((sig, [(k, n, 30 + i) for i, (k, n) in enumerate(combo)]))
+    if ctx.quick:
+        ctx.rng.shuffle(cases)
+        keep = [c for c in cases if len(c[1]) < 2]
+        cases = keep + [c for c in cases if len(c[1]) == 2][:900]
+    for _ in range(300 if ctx.quick else 5000):
+        sig = ctx.rng.choice(SIGS)
+        names = sorted({p[0] for p in sig[1]} | {5, 6})
+        cases.append((sig, [(ctx.rng.choice("PKT"), ctx.rng.choice(names), 30 + i) for i in range(ctx.rng.randint(3, 5))]))
+    for sig, events in cases:
+        out = impl_params(sig, events)
+        reqs.append(params_request(sig, events))
+        impls.append(out)
+        pay.append({"signature": sig[0], "fields": [list(e) for e in events], "names": PNAMES})
+        params_oracle(ctx, sig, events, out)
+        ctx.count("params:fields=%d" % len(events))
+    ctx.compare("FieldHandler(param/keyword/type, resolve_types, format)~Params.rows", reqs, impls, pay)
+
+
+# ====================================================================== _handlePropertyDef: where the fields go
+
+def impl_property(has_body: bool, fields: List[Tuple[str, int, bool]]) -> str:
+    from pydoctor import model
+    tagname = {"r": "return", "t": "rtype", "o": "note"}
+    lines = "\n".join("        @%s:%s" % (tagname[k], (" TEXT%d" % t) if b else "") for k, t, b in fields)
+    src = 'class C:\n    @property\n    def p(self):\n        """\n%s%s\n        """\n        return 1\n' % ("        Body.\n\n" if has_body else "", lines)
+    with contextlib.redirect_stdout(io.StringIO()):
+        system = model.System()
+        system.options.docformat = "epytext"
+        b = system.systemBuilder(system)
+        b.addModuleString(src, modname="m")
+        b.buildModules()
+    attr = system.allobjects["m.C.p"]
+    pd = attr.parsed_docstring
+    num = lambda s: (re.search(r"TEXT(\d+)", s).group(1) if re.search(r"TEXT(\d+)", s) else None)
+    # which field became the description: the n-th return field whose text is the body (empty bodies carry no number)
+    body_text = str(pd) if pd is not None else ""
+    desc = "-"
+    if not has_body or "Body" not in body_text:
+        cand = [t for k, t, bb in fields if k == "r"]
+        d = num(body_text)
+        desc = d if d is not None else ("?" if cand else "-")
+    typ = num(str(attr.parsed_type)) if attr.parsed_type is not None else None
+    if attr.parsed_type is not None and typ is None:
+        typ = "?"
+    other = []
+    for f in (pd.fields if pd is not None else []):
+        other.append(num(str(f.body())) or "?")
+    return "desc=%s type=%s other=%s" % (desc, typ or "-", ",".join(other) or "-")
+
+
+def stream_property(ctx: Ctx) -> None:
+    import itertools
+    reqs, impls, pay = [], [], []
+    for has_body in (False, True):
+        for n in range(0, 4):
+            for kinds in itertools.product("rto", repeat=n):
+                fields = [(k, 40 + i, True) for i, k in enumerate(kinds)]
+                out = impl_property(has_body, fields)
+                reqs.append(("epytext property %d %s" % (has_body, " ".join("%s.%d.%d" % f for f in fields))).rstrip())
+                impls.append(out)
+                pay.append({"property-fields": [list(f) for f in fields], "has_body": has_body})
+                # direct oracle: every field's text is the description, the type, or kept among the fields
+                # (a second @rtype replaces the first: duplicates are outside well-formed docstrings)
+                for i, (k, t, _) in enumerate(fields):
+                    if str(t) not in out and not (k == "t" and any(k2 == "t" for k2, _, _ in fields[i + 1:])):
+                        ctx.fail("field:%s-in-property-silently-dropped" % {"r": "return", "t": "rtype", "o": "note"}[k],
+                                 {"property-fields": [list(f) for f in fields], "has_body": has_body, "shown": out},
+                                 "a field of a property docstring is neither description, type nor kept field")
+    ctx.compare("_handlePropertyDef~Property.handle", reqs, impls, pay)
+    ctx.count("stream:property-fields", len(reqs))
+    ctx.exhaustive = True
+
+
+# ====================================================================== extract_fields / get_parsed_type
+
+ANAMES = {1: "xx", 2: "zz", 3: "yy"}      # none of them is assigned in the class body: extract_fields runs before the body is visited
+
+
+def impl_extract(fields: List[Tuple[str, Optional[int], int]]) -> str:
+    from pydoctor import model, epydoc2stan
+    tagname = {"i": "ivar", "c": "cvar", "v": "var", "t": "type", "o": "note"}
+    lines = "\n".join("    @%s%s: TEXT%d" % (tagname[k], (" " + ANAMES[n]) if n else "", t) for k, n, t in fields)
+    src = 'class C:\n    """\n    Doc.\n\n%s\n    """\n' % lines
+    buf = io.StringIO()
+    with contextlib.redirect_stdout(buf):
+        system = model.System()
+        system.options.docformat = "epytext"
+        b = system.systemBuilder(system)
+        b.addModuleString(src, modname="m")
+        b.buildModules()
+    cls = system.allobjects["m.C"]
+    ids = {v: k for k, v in ANAMES.items()}
+    num = lambda s: (re.search(r"TEXT(\d+)", s).group(1) if re.search(r"TEXT(\d+)", s) else "-")
+    attrs = []
+    for name, a in cls.contents.items():
+        if isinstance(a, model.Attribute):
+            attrs.append("%d/%s/%s/%s" % (ids[name], num(str(a.parsed_docstring)) if a.parsed_docstring is not None else "-",
+                                          num(str(a.parsed_type)) if a.parsed_type is not None else "-",
+                                          "shown" if a.kind is not None else "hidden"))
+    missing = [str(i) for i, (k, n, t) in enumerate(fields) if n is None and k != "o"]
+    nmiss = sum(1 for l in buf.getvalue().split("\n") if "Missing field name" in l)
+    assert nmiss == len(missing), (nmiss, missing)
+    return "attrs %s | missing %s" % (" ".join(attrs) or "-", ",".join(missing) or "-")
+
+
+def impl_showntype(own: List[int], ann: Optional[int]) -> str:
+    from pydoctor import model, epydoc2stan
+    from pydoctor.stanutils import flatten
+    fields = "".join("@type: TEXT%d\n" % t for t in own)
+    src = "vv%s = None\n\"\"\"\nDoc.\n\n%s\"\"\"\n" % ((": ANN%d" % ann) if ann else "", fields)
+    with contextlib.redirect_stdout(io.StringIO()):
+        system = model.System()
+        system.options.docformat = "epytext"
+        b = system.systemBuilder(system)
+        b.addModuleString(src, modname="m")
+        b.buildModules()
+        t = epydoc2stan.type2stan(system.allobjects["m.vv"])
+        h = flatten(t) if t is not None else ""
+    m = re.search(r"(?:TEXT|ANN)(\d+)", h)
+    return m.group(1) if m else "-"
+
+
+def stream_extract(ctx: Ctx) -> None:
+    import itertools
+    reqs, impls, pay = [], [], []
+    one = [(k, n) for k in "icvt" for n in (1, 2, 3, None)] + [("o", None)]
+    for n_f in range(0, 3):
+        for combo in itertools.product(one, repeat=n_f):
+            fields = [(k, n, 50 + i) for i, (k, n) in enumerate(combo)]
+            reqs.append(("epytext extract - %s" % " ".join("%s.%s.%d" % (k, n if n else "-", t) for k, n, t in fields)).rstrip())
+            out = impl_extract(fields)
+            impls.append(out)
+            pay.append({"class-fields": [list(f) for f in fields], "names": ANAMES})
+            # direct oracle: the text of the last var-kind / type field of a name is held by the attribute of that name
+            for i, (k, n, t) in enumerate(fields):
+                if n is None or k == "o":
+                    continue
+                later = any(n2 == n and ((k2 == "t") == (k == "t")) and k2 != "o" for k2, n2, _ in fields[i + 1:])
+                if not later and not re.search(r"\b%d/%s" % (n, ("[^/]*/%d/" % t) if k == "t" else ("%d/" % t)), out):
+                    ctx.fail("extract_fields:text-not-on-its-attribute", {"class-fields": [list(f) for f in fields], "shown": out},
+                             "the text of a variable field is not held by the attribute it names")
+    for _ in range(200 if ctx.quick else 3000):
+        fields = [(ctx.rng.choice("icvto"), ctx.rng.choice([1, 2, 3, None]), 50 + i) for i in range(ctx.rng.randint(3, 5))]
+        fields = [(k, None if k == "o" else n, t) for k, n, t in fields]
+        reqs.append(("epytext extract - %s" % " ".join("%s.%s.%d" % (k, n if n else "-", t) for k, n, t in fields)).rstrip())
+        impls.append(impl_extract(fields))
+        pay.append({"class-fields": [list(f) for f in fields], "names": ANAMES})
+    for own in ([], [60], [60, 61]):
+        for ann in (None, 70):
+            reqs.append("epytext showntype - %s %s" % (",".join(map(str, own)) or "-", ann or "-"))
+            impls.append(impl_showntype(own, ann))
+            pay.append({"own-type-fields": own, "annotation": ann})
+    ctx.compare("extract_fields / get_parsed_type~Attrs.extract / shownType", reqs, impls, pay)
+    ctx.count("stream:extract-fields", len(reqs))
+
+
+def check_document(ctx: Ctx, doc, nested: bool, i: int, tag: str = "doc") -> None:
+    """one abstract document serialised to every format, rendered by the real code, judged by the direct oracle"""
+    for fmt in FORMATS:
+        ser = Ser(fmt).document(doc)
+        src, full = module_source(doc["owner"], ser["docstring"], doc.get("var_level", "module"))
+        inp = {"docformat": fmt, "owner": full, "source": src}
+        try:
+            r = render_doc(src, fmt, full)
+        except Exception as e:
+            ctx.fail("render-raises:" + type(e).__name__, inp, f"{fmt}: building or rendering raises {type(e).__name__}: {str(e)[:80]}")
+            continue
+        out: Out = ser["out"]
+        nontriv = fmt != "plaintext" and ((nested and fmt == "epytext") or bool(out.blocks) or len(ser["fields"]) >= 2 or
+                                          (nested and "list" in out.flags))
+        ctx.case("%s:%s:%s" % (tag, fmt, src), nontriv,
+                 {"stream": "documents", "docformat": fmt, "owner": full, "docstring": ser["docstring"][:400]}
+                 if nontriv and fmt == FORMATS[i % 4] and len(ctx.samples) < 6 and i % 7 == 0 else None)
+        ctx.count(tag + ":" + fmt)
+        ctx.count("doc-owner:" + doc["owner"])
+        for fl in sorted(out.flags):
+            ctx.count("doc-has:%s:%s" % (fl.split(":")[0], fmt))
+        if fmt != "plaintext" and any(n[0] == "code2" for n in doc["body"][0][1]):
+            ctx.count("doc-has:inline-code-with-two-blanks:" + fmt)
+        if fmt != "plaintext" and "\u00a0" in ser["docstring"]:
+            ctx.count("doc-has:no-break-space:" + fmt)
+        ctx.count("doc-fields:%d" % min(len(ser["fields"]), 5))
+        if fmt in ("epytext", "restructuredtext"):
+            for f in ser["fields"]:
+                if f.get("type"):
+                    ctx.count("field-order:%s:%s" % (f["kind"], "type-first" if f.get("type_first") else "type-after"))
+            if doc.get("field_perm") is not None and len(ser["fields"]) > 1:
+                ctx.count("field-order:shuffled-docstrings")
+        oracle_document(ctx, fmt, doc, ser, full, src, r)
+
+
 def stream_documents(ctx: Ctx) -> None:
     n = 300 if ctx.quick else 6000
     gen = DocGen(ctx.rng)
     for i in range(n):
         doc = gen.document()
-        nested = gen.nested_markup
-        for fmt in FORMATS:
-            ser = Ser(fmt).document(doc)
-            src, full = module_source(doc["owner"], ser["docstring"], doc.get("var_level", "module"))
-            inp = {"docformat": fmt, "owner": full, "source": src}
-            try:
-                r = render_doc(src, fmt, full)
-            except Exception as e:
-                ctx.fail("render-raises:" + type(e).__name__, inp, f"{fmt}: building or rendering raises {type(e).__name__}: {str(e)[:80]}")
-                continue
-            out: Out = ser["out"]
-            nontriv = fmt != "plaintext" and ((nested and fmt == "epytext") or bool(out.blocks) or len(ser["fields"]) >= 2 or
-                                              (nested and "list" in out.flags))
-            ctx.case("doc:%s:%s" % (fmt, src), nontriv,
-                     {"stream": "documents", "docformat": fmt, "owner": full, "docstring": ser["docstring"][:400]}
-                     if nontriv and fmt == FORMATS[i % 4] and len(ctx.samples) < 6 and i % 7 == 0 else None)
-            ctx.count("doc:" + fmt)
-            ctx.count("doc-owner:" + doc["owner"])
-            for fl in sorted(out.flags):
-                ctx.count("doc-has:%s:%s" % (fl.split(":")[0], fmt))
-            if fmt != "plaintext" and any(n[0] == "code2" for n in doc["body"][0][1]):
-                ctx.count("doc-has:inline-code-with-two-blanks:" + fmt)
-            if fmt != "plaintext" and "\u00a0" in ser["docstring"]:
-                ctx.count("doc-has:no-break-space:" + fmt)
-            ctx.count("doc-fields:%d" % min(len(ser["fields"]), 5))
-            if fmt in ("epytext", "restructuredtext"):
-                for f in ser["fields"]:
-                    if f.get("type"):
-                        ctx.count("field-order:%s:%s" % (f["kind"], "type-first" if f.get("type_first") else "type-after"))
-                if doc.get("field_perm") is not None and len(ser["fields"]) > 1:
-                    ctx.count("field-order:shuffled-docstrings")
-            oracle_document(ctx, fmt, doc, ser, full, src, r)
+        check_document(ctx, doc, gen.nested_markup, i)
+
+
+# ====================================================================== deterministic corpus (runs first, independent of the seed)
+
+def W(*ws):
+    return [("w", w) for w in ws]
+
+
+def corpus_documents() -> List[Dict[str, Any]]:
+    """the shapes every past seeded change and finding needed, as abstract documents (all five formats)"""
+    def fld(kind, arg=None, typ=None, body=None, **kw):
+        d = {"kind": kind, "arg": arg, "type": typ, "body": W("Alpha", "beta") if body is None else body, "type_first": False}
+        d.update(kw)
+        return d
+    base = {"field_perm": None, "consolidated": None}
+    docs = []
+    # seeded C09-1: later lines of a paragraph start with - = ~ and are as long as the line above, at every section level
+    hard = ("hard", ["Returns the index of the item or", "-1 when the item cannot be found", "~user or =1 of the given items."])
+    docs.append(dict(base, owner="function", body=[("para", W("Look", "up")), hard,
+                ("section", W("Return", "value"), [hard, ("section", W("Deeper"), [hard, ("section", W("Deepest"), [hard], 2)], 1)], 0)], fields=[]))
+    # seeded C09-2 / paired fields: type before the description
+    docs.append(dict(base, owner="function", body=[("para", W("Doc"))],
+                fields=[fld("yield", typ="int", type_first=True), fld("return", typ="str", type_first=True), fld("param", "a", "int", type_first=True)]))
+    # seeded C09-r2-1: consolidated reST fields, descriptions starting with punctuation
+    for cons in ("bullet:", "bullet-", "deflist"):
+        docs.append(dict(base, consolidated=cons, owner="function", body=[("para", W("Doc"))],
+                    fields=[fld("param", "a", lead="-1"), fld("param", "b", lead="--verbose"), fld("keyword", "opt", lead=":-)"),
+                            fld("raise", "ValueError", lead="::"), fld("raise", "KeyError", lead="-x")]))
+    docs.append(dict(base, consolidated="bullet:", owner="class", body=[("para", W("Doc"))],
+                fields=[fld("ivar", "zz", lead="-1"), fld("cvar", "yy", lead=":"), fld("ivar", "ww", lead="-0.5")]))
+    # seeded C09-r2-2: first paragraph of an item / field wraps, ends with `::`, literal block, another paragraph
+    lit = ["x = 1", "    deeper  ", "", "end"]
+    docs.append(dict(base, owner="function", body=[("para", W("Doc")),
+                ("ulist", [[("litfirst", W("First", "line"), W("goes", "on"), lit), ("para", [("m", "code", W("after")), ("w", "it")])]]),
+                ("olist", [[("litfirst", W("Numbered"), W("too"), lit), ("para", W("tail"))]])],
+                fields=[fld("note", literal=lit, after=W("after", "note")), fld("return", literal=lit, after=W("after", "return"))]))
+    # seeded C09-r2-3: keywords with a type and no description, nothing else described
+    docs.append(dict(base, owner="function", body=[("para", W("Doc"))],
+                fields=[fld("keyword", "timeout", "float", body=[]), fld("keyword", "retries", "int", body=[], type_first=True)]))
+    # findings (fixed and open): var in function, trailing blanks in expected output, type of a constructor parameter,
+    # nbsp, property @return, type in a variable's docstring, duplicate keyword
+    docs.append(dict(base, owner="function", body=[("para", W("Doc")), ("doctest", [(["print('a  ')"], ["a"])], "last")],
+                fields=[fld("var", "zz"), fld("keyword", "opt"), fld("keyword", "opt", body=W("second", "text"))]))
+    docs.append(dict(base, owner="class", body=[("para", W("Doc"))], fields=[fld("param", "a", "int"), fld("ivar", "zz", "str")]))
+    docs.append(dict(base, owner="function", body=[("para", W("Use") + [("code2", "a  b")] + W("here"))], fields=[]))
+    docs.append(dict(base, owner="function", body=[("para", W("Price", "10\u00a0EUR"))], fields=[]))
+    docs.append(dict(base, owner="property", body=[("para", W("The", "description"))], fields=[fld("return", typ="int"), fld("raise", "ValueError")]))
+    docs.append(dict(base, owner="property", return_tag="returns", body=[("para", W("The", "description"))], fields=[fld("return")]))
+    for level in ("module", "class", "instance"):
+        docs.append(dict(base, owner="variable", var_level=level, var_type="str", body=[("para", W("The", "description"))], fields=[fld("note")]))
+    return docs
+
+
+def stream_corpus(ctx: Ctx) -> None:
+    for i, doc in enumerate(corpus_documents()):
+        check_document(ctx, doc, True, i, tag="corpus")
+    # the recorded input of every C09 finding (fixed or open): a fixed one must stay fixed
+    from ..core import load_known
+    for e in load_known().get("C09", []):
+        inp = e.get("input") or {}
+        if "source" not in inp:
+            continue
+        bad, lines = doc_verdict(inp)
+        ctx.count("corpus:finding-input:%s:%s" % (e.get("status", "open"), "fails" if bad else "holds"))
+        ctx.case("corpus-finding:" + e["signature"], True, None)
+        if bad:
+            ctx.fail(e["signature"], inp, "recorded input of this finding: " + " / ".join(lines)[:300])
 
 
 def run(ctx: Ctx) -> None:
+    stream_corpus(ctx)
     stream_tables(ctx)
     stream_target(ctx)
     stream_colorize(ctx)
@@ -1853,37 +2225,51 @@ def run(ctx: Ctx) -> None:
     stream_heading(ctx)
     stream_itemliteral(ctx)
     stream_pairs(ctx)
+    stream_rstsep(ctx)
+    stream_params(ctx)
+    stream_property(ctx)
+    stream_extract(ctx)
     stream_documents(ctx)
+
+
+def doc_verdict(inp, verbose: bool = False) -> Tuple[int, List[str]]:
+    """re-render a recorded document input and decide whether the recorded failure is still there"""
+    r = render_doc(inp["source"], inp["docformat"], inp["owner"])
+    root = dom(r["html"])
+    lines: List[str] = []
+    if verbose:
+        lines += ["docformat : %s  object: %s" % (inp["docformat"], inp["owner"]), "html      : " + r["html"],
+                  "reports   : %r" % (r["reports"],), "attributes: %r" % ({k: (v["visible"], v["kind"]) for k, v in r["attrs"].items()},),
+                  "own type  : %r" % (r.get("own_type"),)]
+    bad = 0
+    if find_all(root, lambda n: n.tag == "p" and n.cls() == "pre") and inp["docformat"] != "plaintext":
+        lines.append("oracle    : the docstring is shown as plain text (%s)" % (r.get("to_stan_error") or "bad docstring"))
+        bad = 1
+    if "field" in inp:
+        f = inp["field"]
+        words = f[2] if isinstance(f[2], list) else [f[2]]
+        shown = text_of(root).split() + text_of(dom(r.get("own_type") or "")).split() + \
+            [w for a in r["attrs"].values() if a["visible"] for w in text_of(dom(a["html"])).split() + text_of(dom(a["type"] or "")).split()]
+        it = iter(shown)
+        present = all(w in it for w in words)
+        reported = any((f[1] and f[1] in l) or re.search(r"\b[ic]?%s\b" % re.escape(f[0]), l) for l in r["reports"])
+        lines.append("oracle    : field %s %s -> text displayed: %s, reported: %s" % (f[0], f[1] or "", present, reported))
+        bad = bad or int(not (present or reported))
+    if "intended" in inp and isinstance(inp["intended"], str):
+        pres = [norm_pre(text_of(p, sep=False), dedent="literal" in p.cls()) for p in find_all(root, lambda n: n.tag == "pre")]
+        ok = inp["intended"] in pres
+        lines.append("oracle    : intended block %r %s among the displayed blocks %r" % (inp["intended"], "is" if ok else "is NOT", pres))
+        bad = bad or int(not ok)
+    return bad, lines
 
 
 def replay(ctx: Ctx, obj) -> int:
     """re-run one recorded case on the model and on the implementation; 1 = the property (or the correspondence) still fails"""
     inp = obj.get("input") or obj.get("request") or obj
     if isinstance(inp, dict) and "source" in inp and "docformat" in inp:
-        r = render_doc(inp["source"], inp["docformat"], inp["owner"])
-        root = dom(r["html"])
-        print("docformat :", inp["docformat"], " object:", inp["owner"])
-        print("html      :", r["html"])
-        print("reports   :", r["reports"])
-        print("attributes:", {k: (v["visible"], v["kind"]) for k, v in r["attrs"].items()})
-        bad = 0
-        if any("bad docstring" in l for l in r["reports"]):
-            print("oracle    : the docstring is reported as bad and shown as plain text")
-            bad = 1
-        if "field" in inp:
-            f = inp["field"]
-            words = f[2] if isinstance(f[2], list) else [f[2]]
-            shown = text_of(root).split() + [w for a in r["attrs"].values() if a["visible"] for w in text_of(dom(a["html"])).split() + text_of(dom(a["type"] or "")).split()]
-            it = iter(shown)
-            present = all(w in it for w in words)
-            reported = any((f[1] and f[1] in l) or re.search(r"\b[ic]?%s\b" % re.escape(f[0]), l) for l in r["reports"])
-            print("oracle    : field %s %s -> text displayed: %s, reported: %s" % (f[0], f[1] or "", present, reported))
-            bad = bad or int(not (present or reported))
-        if "intended" in inp and "shown" in inp and isinstance(inp["intended"], str):
-            pres = [norm_pre(text_of(p, sep=False), dedent="literal" in p.cls()) for p in find_all(root, lambda n: n.tag == "pre")]
-            ok = inp["intended"] in pres
-            print("oracle    : intended block %r %s among the displayed blocks %r" % (inp["intended"], "is" if ok else "is NOT", pres))
-            bad = bad or int(not ok)
+        bad, lines = doc_verdict(inp, verbose=True)
+        for l in lines:
+            print(l)
         return bad
     if isinstance(inp, dict) and ("paragraph" in inp or "text" in inp):
         s = inp.get("paragraph", inp.get("text"))
